@@ -689,6 +689,11 @@ func (s *SSEServer) handleNotificationMessage(ctx context.Context, rawMessage js
 		return
 	}
 
+	// The handshake is complete once the client says so; from then on the session may be notified.
+	if notification.Method == MethodNotificationsInitialized {
+		session.Initialize()
+	}
+
 	// Handle notification asynchronously.
 	go func() {
 		// Create a context that will not be canceled due to HTTP connection closure.
